@@ -92,6 +92,12 @@ def operands():
     out.append(Opd('SE3(I)[1]', 'SE3', lambda: sm.SE3(), 1))
     out.append(Opd('SO3(I)[1]', 'SO3', lambda: sm.SO3(), 1))
     out.append(Opd('Twist3(0)[1]', 'Twist3', lambda: sm.Twist3(), 1))
+    # plain arrays whose VALUES happen to be members of a group (a valid homogeneous matrix, a rotation matrix, a unit 4-vector): still arrays
+    out.append(Opd('mat4x4(SE3 value)', 'ndarray', lambda: ref.rt(ref.rotx(0.3), (1.0, 2.0, 3.0)), tag='mat4x4'))
+    out.append(Opd('mat4x4(identity)', 'ndarray', lambda: np.eye(4), tag='mat4x4'))
+    out.append(Opd('mat3x3(SO3 value)', 'ndarray', lambda: ref.rotx(0.3) @ ref.roty(0.2), tag='mat3x3'))
+    out.append(Opd('mat3x3(SE2 value)', 'ndarray', lambda: ref.rt(ref.rot2(0.3), (1.0, 2.0)), tag='mat3x3'))
+    out.append(Opd('mat2x2(SO2 value)', 'ndarray', lambda: ref.rot2(0.3), tag='mat2x2'))
     out.append(Opd('int', 'int', lambda: 2))
     out.append(Opd('float', 'float', lambda: 0.5))
     out.append(Opd('np.float64', 'np.float64', lambda: np.float64(1.5)))
